@@ -184,18 +184,18 @@ class Renderer:
             elif k == 'CXXMemberCallExpr' and not n['callee'].get('const') and n.get('obj') is not None:
                 tgt = n['obj']
             if tgt is not None:
-                m = fn.nodes[fn.strip(tgt, 'all')]
-                if m['k'] == 'DeclRefExpr' and m['decl'].get('dk') == 'local':
-                    bad.add(m['decl']['id'])
+                m = self._base_local(tgt)
+                if m is not None:
+                    bad.add(m)
             # passed by non-const reference
             if k in CALL_KINDS and 'callee' in n:
                 pts = n['callee'].get('ptypes', [])
                 args = fn.call_args(n)
                 for a, pt in zip(args, pts):
                     if pt.endswith('&') and not pt.startswith('const '):
-                        m = fn.nodes[fn.strip(a, 'all')]
-                        if m['k'] == 'DeclRefExpr' and m['decl'].get('dk') == 'local':
-                            bad.add(m['decl']['id'])
+                        m = self._base_local(a)
+                        if m is not None:
+                            bad.add(m)
         # an initialiser with side effects (a read from the file, tellg(), ...) must not be
         # duplicated into every use: such locals stay opaque
         for i, d in list(defs.items()):
@@ -203,6 +203,33 @@ class Renderer:
                 bad.add(i)
         self._single = {i: d for i, d in defs.items() if i not in bad or d.get('isref')}
         return self._single
+
+    def _base_local(self, i):
+        """id of the non-reference local variable that owns the storage designated by expression i
+        (x, x.f, x[i], x.at(i), *x.begin() ...), or None"""
+        fn = self.fn
+        for _ in range(40):
+            m = fn.nodes[fn.strip(i, 'all')]
+            k = m['k']
+            if k == 'DeclRefExpr':
+                if m['decl'].get('dk') == 'local':
+                    return m['decl']['id']
+                return None
+            if k == 'MemberExpr' and m['ch'] and not m.get('arrow'):
+                i = m['ch'][0]
+            elif k == 'ArraySubscriptExpr':
+                i = m['ch'][0]
+            elif k == 'CXXOperatorCallExpr' and m.get('op') in ('[]',) and m.get('args'):
+                t = fn.nodes[fn.strip(m['args'][0], 'all')].get('t', '')
+                if not (t.startswith('std::vector') or t.startswith('std::basic_string') or t.startswith('std::string') or t.startswith('std::array')
+                        or t.startswith('const std::vector')):
+                    return None
+                i = m['args'][0]
+            elif k == 'CXXMemberCallExpr' and m['callee']['name'] in ('at', 'front', 'back') and m['callee'].get('classq', '').startswith('std::') and m.get('obj') is not None:
+                i = m['obj']
+            else:
+                return None
+        return None
 
     def _impure(self, i):
         fn = self.fn
